@@ -23,6 +23,17 @@ type PropSpec struct {
 	Assumptions []string `json:"assumptions"`
 	Undecided   []string `json:"clauses_not_decided"`
 	Bounded     []string `json:"bounded"`
+	ClosedWorld []CWRule `json:"closed_world"`
+}
+
+// CWRule: a whole-module scan of the SSA call graph: calls into the listed packages (or of the listed
+// functions) may occur only inside the allowed functions.
+type CWRule struct {
+	Name       string   `json:"name"`
+	ForbidPkgs []string `json:"forbid_pkgs"`
+	ForbidFns  []string `json:"forbid_fns"`
+	Allow      []string `json:"allow"`
+	Desc       string   `json:"desc"`
 }
 
 type KnownFinding struct {
@@ -269,6 +280,19 @@ func cmdCheck(args []string) {
 		}
 		byName[n] = sm
 		names = append(names, n)
+	}
+	if eng != nil && eng.prog != nil {
+		for _, rule := range ps.ClosedWorld {
+			n := "closed-world/" + rule.Name
+			sm := &oblSummary{Name: n, Kind: "closed-world", Desc: rule.Desc, Contract: true, Status: "discharged", Solver: "ssa-scan", Instances: 1}
+			if bad := eng.scanCalls(rule); len(bad) > 0 {
+				sm.Status = "refuted"
+				sm.Detail = strings.Join(bad, "; ")
+				sm.Model = sm.Detail
+			}
+			byName[n] = sm
+			names = append(names, n)
+		}
 	}
 	sort.Strings(names)
 
